@@ -356,3 +356,18 @@ def contract(target, **kw):
     c = Contract(target, **kw)
     CONTRACTS.append(c)
     return c
+
+
+class DictOf(Spec):
+    """dict with fixed keys and symbolic values (keyword arguments of a constructor)."""
+
+    def __init__(self, **specs):
+        self.specs = specs
+
+    def make(self, path, name):
+        vs, cs = {}, {}
+        for k, s in self.specs.items():
+            if not isinstance(s, Spec):
+                s = Const(s)
+            vs[k], cs[k] = s.make(path, f"{name}.{k}")
+        return vs, lambda ev: {k: c(ev) for k, c in cs.items()}
